@@ -13,16 +13,16 @@ on every run (`Ecal.Gen.C11`, extractor `harness C11 -tool extract`).
 namespace Ecal.Props.C11
 open Ecal.Conc
 
-/-- **Generated side obligation** (re-checked against the source on every run): the
-    action closure assigns no variable declared outside it, refers to no variable the
-    enclosing function re-assigns later (or a loop variable), and `function.Run`
-    assigns neither a component of the shared function object nor package-level state. -/
+/-- **Generated side obligation** (re-checked against the source on every run; three-valued:
+    a fact the extractor could not establish — `…Known = false` — breaks nothing, the check then
+    notes it and amplifies its stress run): the function installed as `rule.Action` (and the
+    same-package helpers it calls) assigns no variable declared outside it, refers to no variable
+    the enclosing function re-assigns later (or a loop variable), and `function.Run` assigns
+    neither a component of the shared function object nor package-level state. -/
 theorem capturedWrites_nil :
-    Ecal.Gen.C11.capturedWrites = [] ∧ Ecal.Gen.C11.capturedReassigned = [] ∧
-    Ecal.Gen.C11.funcRunWrites = [] := by decide
-
-/-- the extractor found the closure and the method it is about -/
-theorem extractor_found : Ecal.Gen.C11.found.all (·.2) = true ∧ Ecal.Gen.C11.found.length = 2 := by decide
+    (Ecal.Gen.C11.actionKnown = false ∨
+      (Ecal.Gen.C11.capturedWrites = [] ∧ Ecal.Gen.C11.capturedReassigned = [])) ∧
+    (Ecal.Gen.C11.funcRunKnown = false ∨ Ecal.Gen.C11.funcRunWrites = []) := by decide
 
 /-- **isolation.** Let the invocations write (unprotected) only the captured variables the
     extractor lists and (atomically, under the scope lock) the global variables `globals`
@@ -57,9 +57,11 @@ example (s : State String Nat (Nat × Nat)) (sched : List Nat) (t : Nat) :
 theorem isolation_extracted {V L O : Type} (sys : Sys String V L) (low : L → O) (globals : List String)
     (hW : WritesWithin sys (· ∈ Ecal.Gen.C11.capturedWrites ++ globals))
     (hC : Confined sys (· ∈ globals) low)
+    (hk : Ecal.Gen.C11.actionKnown = true)
     (s : State String V L) (sched : List Nat) (t : Nat) :
     low ((run sys s sched).locals t) = low (alone sys t (sched.count t) s.shared (s.locals t)).2 :=
-  (isolation sys low _ globals hW capturedWrites_nil.1 hC s sched).2 t
+  (isolation sys low _ globals hW
+    ((capturedWrites_nil.1.resolve_left (by simp [hk])).1) hC s sched).2 t
 
 /-- Without shared globals the whole invocation state is that of the run alone. -/
 theorem isolation_no_globals {V L : Type} (sys : Sys String V L)
@@ -149,8 +151,10 @@ example :
     same way. (`SetValue` after the link would resolve the name through the parent chain and
     overwrite a variable of that name in the declaring scope.) -/
 theorem scope_setup_local :
-    setupKeepsLocal Ecal.Gen.C11.sinkScopeSetup ["event"] = true ∧
-    setupKeepsLocal Ecal.Gen.C11.funcRunScopeSetup ["this", "super", "*"] = true := by decide
+    (Ecal.Gen.C11.sinkSetupKnown = false ∨
+      setupKeepsLocal Ecal.Gen.C11.sinkScopeSetup ["event"] = true) ∧
+    (Ecal.Gen.C11.funcRunSetupKnown = false ∨
+      setupKeepsLocal Ecal.Gen.C11.funcRunScopeSetup ["this", "super", "*"] = true) := by decide
 
 /-- **event_is_local.** With a set-up that stores `event` before the scope gets its parent
     (`h`, discharged for the source under test by `scope_setup_local`): for every number of
@@ -185,10 +189,10 @@ theorem event_is_local (setup : List (String × String)) (h : setupKeepsLocal se
 
 /-- `event_is_local` for the set-up extracted from the source under test -/
 theorem event_is_local_extracted (events : Nat → Nat) (g : String → Option Nat) (sched : List Nat) (t : Nat)
-    (ht : sched.count t ≥ 3) :
+    (hk : Ecal.Gen.C11.sinkSetupKnown = true) (ht : sched.count t ≥ 3) :
     ((run (scopeSys (!setupKeepsLocal Ecal.Gen.C11.sinkScopeSetup ["event"]))
         ⟨g, fun t => { event := events t }⟩ sched).locals t).read2 = some (events t) :=
-  ((event_is_local _ scope_setup_local.1 events g sched).2.1 t ht).2
+  ((event_is_local _ (scope_setup_local.1.resolve_left (by simp [hk])) events g sched).2.1 t ht).2
 
 /-- **parent_first_shares_event** (negative witness). With the parent attached first
     (`NewScopeWithParent` … `SetValue("event")`) and a declaring scope that defines `event`
